@@ -294,8 +294,11 @@ Fill(n, b) == [i \in 1..n |-> b]
 CredShapes == {p \in ConnectPkts({TRUE}, {NoWill, [w |-> TRUE, wq |-> 1, wr |-> FALSE]}, {TRUE}, BOOLEAN, {60},
                                  FewPropSeqs(1), FewPropSeqs(WILLCTX), {Txt(3), <<>>}, {Bin(3), <<>>}) : TRUE}
 CredCases ==
-  {[kind |-> "cred", p |-> p, n |-> n, variant |-> vr, decoded |-> dc] :
+  {[kind |-> "cred", p |-> p, n |-> n, variant |-> vr, decoded |-> dc, reuse |-> FALSE] :
      p \in CredShapes, n \in CredLens, vr \in 1..4, dc \in BOOLEAN}
+  \* the two CONNECT values are reused: a frame without credentials is decoded INTO each of them
+  \cup {[kind |-> "cred", p |-> p, n |-> n, variant |-> vr, decoded |-> FALSE, reuse |-> TRUE] :
+         p \in CredShapes, n \in {1, 9}, vr \in {1, 3}}
 (* the two secrets of a pair; variants make a secret coincide with other field contents *)
 SecretA(x) == IF x.variant = 1 THEN Fill(x.n, 65)
               ELSE IF x.variant = 2 THEN [i \in 1..x.n |-> Txt(3)[((i - 1) % 3) + 1]]        \* repeats the client identifier
@@ -313,8 +316,12 @@ CredOps(x, h, hw, su, sp) ==
 CredProg(x) ==
   LET a == CredOps(x, 1, 2, SecretA(x), SecretA(x))
       b == CredOps(x, 3, 4, SecretB(x), SecretB(x)) IN
-  [fam |-> "cred", meta |-> [n |-> x.n, variant |-> x.variant, decoded |-> x.decoded],
-   steps |-> IF ~x.decoded
+  [fam |-> "cred", meta |-> [n |-> x.n, variant |-> x.variant, decoded |-> x.decoded, reuse |-> x.reuse],
+   steps |-> IF x.reuse
+             THEN a \o b \o <<[op |-> "Buf", buf |-> 1, bytes |-> <<0, 4, 77, 81, 84, 84, 5, 2, 0, 60, 0, 0, 2, 105, 100>>],
+                              [op |-> "Unmarshal", h |-> 1, buf |-> 1, key |-> "into"], [op |-> "Unmarshal", h |-> 3, buf |-> 1, key |-> "into"],
+                              [op |-> "Diag", h |-> 1], [op |-> "Diag", h |-> 3], [op |-> "CmpDiag", hs |-> <<1, 3>>]>>
+             ELSE IF ~x.decoded
              THEN a \o b \o <<[op |-> "Diag", h |-> 1], [op |-> "Diag", h |-> 3], [op |-> "CmpDiag", hs |-> <<1, 3>>]>>
              ELSE a \o b \o <<[op |-> "WriteTo", h |-> 1], [op |-> "Stream", stream |-> 1, from |-> 1], [op |-> "ReadPacket", h |-> 5, stream |-> 1],
                               [op |-> "WriteTo", h |-> 3], [op |-> "Stream", stream |-> 1, from |-> 3], [op |-> "ReadPacket", h |-> 6, stream |-> 1],
@@ -338,7 +345,7 @@ FullPkt(t) ==
 (* family "own": decoded packets own their memory; bystanders (C14)        *)
 (***************************************************************************)
 OwnFrames == {f \in ShortFrames : Framed(f) /\ Verdict(f).kind = "accept"} \cup
-             { <<48, 16, 0, 1, 97, 12, 9, 0, 2, 1, 2, 38, 0, 1, 107, 0, 1, 118>>,       \* PUBLISH correlation data + user property, no payload
+             { <<0, 3, 1, 2, 3>>, <<48, 16, 0, 1, 97, 12, 9, 0, 2, 1, 2, 38, 0, 1, 107, 0, 1, 118>>,       \* PUBLISH correlation data + user property, no payload
                <<48, 9, 0, 1, 97, 0, 1, 2, 3, 4, 5>>,
                <<16, 29, 0, 4, 77, 81, 84, 84, 5, 196, 0, 60, 0, 0, 1, 99, 0, 0, 1, 116, 0, 2, 7, 8, 0, 1, 117, 0, 2, 1, 2>>,
                <<240, 9, 24, 7, 21, 0, 1, 109, 22, 0, 0>> \o <<>> }
@@ -367,7 +374,9 @@ OwnProg(x) ==
                 \o (IF t \in 1..15 THEN Renumber(BuildOps(FullPkt(t)), 0) \o Renumber(BuildOps(FullPkt(t)), 10)
                     ELSE <<[op |-> "New", h |-> 1, type |-> tn], [op |-> "New", h |-> 11, type |-> tn]>>)
                 \o <<[op |-> "New", h |-> 21, type |-> tn],
+                     [op |-> "WriteTo", h |-> 11], [op |-> "WriteTo", h |-> 21],
                      [op |-> "Unmarshal", h |-> 1, buf |-> 1, key |-> "into"],
+                     [op |-> "WriteTo", h |-> 11], [op |-> "WriteTo", h |-> 21],
                      [op |-> "Scribble", buf |-> 1],
                      [op |-> "WriteTo", h |-> 11], [op |-> "New", h |-> 22, type |-> tn], [op |-> "Diag", h |-> 22]>>]
   ELSE IF x.kind = "ownall" THEN            \* the body of a given to UnmarshalBinary of every type, then overwritten
@@ -436,6 +445,17 @@ ConcBase(t) == FullPkt(t)
 ConcCases ==
   {[kind |-> "conc", t |-> t, a |-> a, b |-> b, cc |-> cc, pre |-> pre] :
      t \in TYPES, a \in 1..6, b \in 1..6, cc \in (IF Thorough THEN 0..6 ELSE {0}), pre \in BOOLEAN}
+(* goroutines reading different frames from private streams, among them reserved type 0 with different bodies *)
+ConcFrameSets == { << <<0, 3, 97, 97, 97>>, <<0, 5, 99, 99, 99, 99, 99>>, <<0, 2, 7, 7>> >>,
+                   << <<32, 6, 1, 0, 3, 33, 0, 20>>, <<32, 3, 0, 0, 0>>, <<0, 1, 9>> >>,
+                   << <<48, 5, 0, 1, 97, 0, 122>>, <<50, 6, 0, 1, 97, 0, 7, 0>>, <<64, 2, 0, 1>>, <<224, 0>> >> }
+ConcFrameCases == IF 1 \in TYPES THEN {[kind |-> "concframes", fs |-> fs] : fs \in ConcFrameSets} ELSE {}
+ConcFramesProg(x) ==
+  [fam |-> "conc", meta |-> [kind |-> x.kind],
+   steps |-> <<[op |-> "New", h |-> 1, type |-> "PingReq"],
+               [op |-> "Conc", hs |-> <<1>>, ops |-> <<"ReadFrame">>, frames |-> x.fs,
+                procs |-> IF Thorough THEN 8 ELSE 4, n |-> IF Thorough THEN 5000 ELSE 500]>>]
+
 ConcValid(x) == x.a <= x.b /\ (x.cc = 0 \/ x.b <= x.cc)
 ConcProg(x) ==
   LET p == ConcBase(x.t)
@@ -445,7 +465,8 @@ ConcProg(x) ==
       \* pre: the packets are encoded once sequentially before the goroutines start (gives the expected bytes);
       \* ~pre: the first encoding ever happens concurrently, and a CONNECT's will is completed after SetWill
       steps |-> BuildOps(p)
-                \o (IF ~x.pre /\ shared THEN <<CallOp(2, "SetPayload", <<Bin(7)>>), CallOp(2, "SetCorrelationData", <<Bin(2)>>)>> ELSE <<>>)
+                \o (IF ~x.pre /\ shared THEN <<CallOp(2, "SetPayload", <<Bin(7)>>), CallOp(2, "SetCorrelationData", <<Bin(2)>>),
+                                               CallOp(2, "SetRetain", <<FALSE>>), CallOp(2, "SetQoS", <<2>>)>> ELSE <<>>)
                 \o (IF x.pre THEN <<[op |-> "WriteTo", h |-> 1]>> ELSE <<>>)
                 \o (IF x.pre /\ shared THEN <<[op |-> "WriteTo", h |-> 2]>> ELSE <<>>)
                 \o <<[op |-> "Conc", hs |-> IF shared THEN <<1, 2, 1>> ELSE <<1>>, ops |-> ops,
@@ -465,7 +486,7 @@ Cases2 ==
   ELSE IF FAMILY = "cred" THEN CredCases
   ELSE IF FAMILY = "own" THEN OwnCases
   ELSE IF FAMILY = "vbi" THEN VbiCases \cup VbiApiCases
-  ELSE IF FAMILY = "conc" THEN {x \in ConcCases : ConcValid(x)}
+  ELSE IF FAMILY = "conc" THEN {x \in ConcCases : ConcValid(x)} \cup ConcFrameCases
   ELSE Cases
 
 Init2 == c \in Cases2 /\ pool = EmptyFn
@@ -490,6 +511,7 @@ ProgOf2(x) ==
   ELSE IF x.kind \in {"vbienc", "vbidec"} THEN VbiProg(x)
   ELSE IF x.kind = "vbiapi" THEN VbiApiProg(x)
   ELSE IF x.kind = "conc" THEN ConcProg(x)
+  ELSE IF x.kind = "concframes" THEN ConcFramesProg(x)
   ELSE ProgOf(x)
 
 Theorems2 ==
